@@ -226,6 +226,105 @@ theorem runReg_spec : ∀ (ops : List (RegOp V)) (m : ResMap V), m.counter + ops
       · right; exact hi
 
 
+/-! ### remove_all -/
+
+theorem sorted_split {β} (as bs : List (Nat × β)) (e : Nat × β)
+    (hs : (KMap.keys (as ++ e :: bs)).Pairwise (· < ·)) :
+    (∀ x ∈ as, x.1 < e.1) ∧ (∀ x ∈ bs, e.1 < x.1) ∧ (KMap.keys (as ++ bs)).Pairwise (· < ·) := by
+  unfold KMap.keys at hs ⊢
+  rw [List.map_append, List.map_cons, List.pairwise_append] at hs
+  obtain ⟨h1, h2, h3⟩ := hs
+  rw [List.pairwise_cons] at h2
+  refine ⟨?_, ?_, ?_⟩
+  · intro x hx; exact h3 x.1 (List.mem_map.mpr ⟨x, hx, rfl⟩) e.1 (by simp)
+  · intro x hx; exact h2.1 x.1 (List.mem_map.mpr ⟨x, hx, rfl⟩)
+  · rw [List.map_append, List.pairwise_append]
+    refine ⟨h1, h2.2, ?_⟩
+    intro a ha b hb
+    exact h3 a ha b (List.mem_cons_of_mem _ hb)
+
+theorem erase_split {β} (as bs : List (Nat × β)) (e : Nat × β)
+    (ha : ∀ x ∈ as, x.1 < e.1) (hb : ∀ x ∈ bs, e.1 < x.1) :
+    KMap.erase (as ++ e :: bs) e.1 = as ++ bs := by
+  unfold KMap.erase
+  rw [List.filter_append, List.filter_cons]
+  have h1 : as.filter (fun x => x.1 != e.1) = as := by
+    apply List.filter_eq_self.mpr; intro x hx; have := ha x hx; simp; omega
+  have h2 : bs.filter (fun x => x.1 != e.1) = bs := by
+    apply List.filter_eq_self.mpr; intro x hx; have := hb x hx; simp; omega
+  simp [h1, h2]
+
+theorem loop_exact (s : Nat) : ∀ (fuel pos : Nat) (m : KMap (Nat × V)), m.keys.Pairwise (· < ·) →
+    (∀ e ∈ m, e.2.1 = s → pos ≤ e.1) → (m.filter (fun e => e.2.1 == s)).length ≤ fuel →
+    removeAllLoop s fuel pos m = some (m.filter (fun e => e.2.1 != s)) := by
+  intro fuel
+  induction fuel with
+  | zero =>
+    intro pos m _ hH hc
+    have hnone : ∀ e ∈ m, ¬ (e.2.1 = s) := by
+      intro e he hes
+      have : e ∈ m.filter (fun e => e.2.1 == s) := List.mem_filter.mpr ⟨he, by simp [hes]⟩
+      have := List.length_pos_of_mem this
+      omega
+    have hf : findFrom s pos m = none := by
+      unfold findFrom
+      rw [List.find?_eq_none.mpr]; · rfl
+      intro e he; simp; intro _; exact hnone e he
+    unfold removeAllLoop
+    rw [hf]
+    simp only
+    congr 1
+    exact (List.filter_eq_self.mpr (by intro e he; simpa using hnone e he)).symm
+  | succ n ih =>
+    intro pos m hs hH hc
+    unfold removeAllLoop
+    cases hf : findFrom s pos m with
+    | none =>
+      simp only
+      unfold findFrom at hf
+      have hnone : ∀ e ∈ m, ¬ (e.2.1 = s) := by
+        intro e he hes
+        cases hfind : m.find? (fun e => decide (pos ≤ e.1) && e.2.1 == s) with
+        | some y => simp [hfind] at hf
+        | none =>
+          have := List.find?_eq_none.mp hfind e he
+          simp [hes, hH e he hes] at this
+      congr 1
+      exact (List.filter_eq_self.mpr (by intro e he; simpa using hnone e he)).symm
+    | some h =>
+      simp only
+      unfold findFrom at hf
+      cases hfind : m.find? (fun e => decide (pos ≤ e.1) && e.2.1 == s) with
+      | none => simp [hfind] at hf
+      | some e =>
+        simp [hfind] at hf
+        subst hf
+        obtain ⟨hp, as, bs, hm, hfirst⟩ := List.find?_eq_some_iff_append.mp hfind
+        simp only [Bool.and_eq_true, decide_eq_true_eq, beq_iff_eq] at hp
+        subst hm
+        obtain ⟨ha, hb, hs'⟩ := sorted_split as bs e hs
+        rw [erase_split as bs e ha hb]
+        have hasn : ∀ x ∈ as, ¬ (x.2.1 = s) := by
+          intro x hx hxs
+          have := hfirst x hx
+          simp [hxs, hH x (by simp [hx]) hxs] at this
+        rw [ih e.1 (as ++ bs) hs' ?_ ?_]
+        · congr 1
+          simp [List.filter_append, hp.2]
+        · intro x hx hxs
+          rcases List.mem_append.mp hx with hx | hx
+          · exact absurd hxs (hasn x hx)
+          · exact Nat.le_of_lt (hb x hx)
+        · simp only [List.filter_append, List.filter_cons, hp.2, beq_self_eq_true, if_true,
+            List.length_append, List.length_cons] at hc ⊢
+          omega
+
+theorem removeAll_exact (m : ResMap V) (s : Nat) (hs : m.map.keys.Pairwise (· < ·)) :
+    m.removeAll s = some { m with map := m.map.filter (fun e => e.2.1 != s) } := by
+  unfold ResMap.removeAll
+  rw [loop_exact s m.map.length 0 m.map hs (by intro _ _ _; omega) (List.length_filter_le _ _)]
+  rfl
+
 /-! ### (c) tag-set codec, decoded-member level -/
 
 def tagOf (k : TagKey) (v : String) : Tag := ⟨!k.enc, k.name, v⟩
@@ -369,5 +468,23 @@ theorem serialize_visit (b : Bool) : ∀ G : List (TagKey × List String), (∀ 
     · simp only [List.map_cons, visitMap, Bool.and_false, Bool.false_eq_true, if_false, splitKey_render g.1 hok, hv, ht]
       rw [flat_cons]
       rfl
+
+/- OPEN: reader ∘ writer at the JSON *text* level (not attempted for lack of time; the correspondence
+   run exercises it on every generated tag set, and Props/C19 refutes the full-strength text
+   round-trip on the current code with the D10 witness):
+
+   theorem read_render (o : TagObj) :
+       readTagObj (renderObj o) = some (o.map fun m => (⟨m.1, m.1.toList.any needsEscape⟩, m.2))
+
+   theorem tagset_text_roundtrip_partial (tags : List Tag) (hne : tags ≠ [])
+       (hdom : ∀ t ∈ tags, t.plain = false → match t.name.toList with | [] => False | c :: _ => c ≠ '~')
+       (hplain : keysBorrowedOnly = true → ∀ t ∈ tags, t.name.toList.all (fun c => !needsEscape c)) :
+       ∃ text, encodeTags tags = some (some text) ∧ ∃ out, decodeTags keysBorrowedOnly text = .ok out ∧ out.Perm tags
+
+   Plan: `parseStrBody (s.flatMap renderChar ++ '"' :: rest) acc esc
+            = some (acc.reverse ++ s, esc || s.any needsEscape, rest)` by induction on `s` (one case per
+   branch of `renderChar`; the `\u00XX` branch needs `hex4 '0' '0' (hexDigit (n/16)) (hexDigit (n%16)) = n`
+   for n < 32, a finite check), then `parseStrArray` / `parseMembers` by induction on the lists with
+   enough fuel (`text.length + 1` bounds the number of members), then compose with `serialize_visit`. -/
 
 end Askar.Ffi.Lemmas
